@@ -44,6 +44,11 @@ PROGRAMS = [
     ("def test(w: Parameter[List[int]], a: Qint[2]) -> Qint[4]:\n    return max(w) + a", dict(w=[[1, 3], [2, 0], [0, 1, 2]])),
     ("def test(w: Parameter[List[int]], a: Qint[2]) -> Qint[4]:\n    return w[a]", dict(w=[[1, 2, 3, 4], [7, 0, 7, 0], [15, 0, 0, 1]])),
     ("def test(lo: Parameter[Qint[2]], hi: Parameter[Qint[2]], a: Qint[2]) -> bool:\n    return lo <= a and a <= hi", dict(lo=[0, 1, 2], hi=[1, 2, 3])),
+    # parameterised functions that call other compiled functions (defs=): every bind re-binds the callee
+    ("def test(c: Parameter[bool], a: Qint[2]) -> Qint[2]:\n    return g(a) if c else a", dict(c=[True, False]),
+     ["def g(a: Qint[2]) -> Qint[2]:\n    return a + 1"]),
+    ("def test(k: Parameter[Qint[2]], a: Qint[2], b: bool) -> Qint[2]:\n    return g(a) + k if h(b, b) else g(g(a))", dict(k=[0, 1, 3]),
+     ["def g(a: Qint[2]) -> Qint[2]:\n    return a ^ 1", "def h(x: bool, y: bool) -> bool:\n    return x and not y"]),
 ]
 
 
@@ -85,8 +90,10 @@ def task(job):
     src, bindings = job["src"], job["bindings"]
     out = dict(status="ok", fails=[], evaluated=0, exact=0, wrapped=0, unsupported=0, py_raises=0, binds=0, rejected=0)
     try:
+        defs_src = job.get("defs") or []
         try:
-            u = qlassf(src, to_compile=False)
+            callees = [qlassf(d, to_compile=False) for d in defs_src]
+            u = qlassf(src, defs=callees, to_compile=False)
         except BaseException as e:
             return dict(status="rejected", exc=f"{type(e).__name__}: {e}"[:200])
         if type(u).__name__ != "UnboundQlassf":
@@ -143,7 +150,7 @@ def task(job):
                     break
                 try:
                     shadow.PARAMS = dict(kw)
-                    rb, wrapped = shadow.run(src + wrapper, "_bound", [a.ttype for a in qf.args], qf.returns.ttype, bits,
+                    rb, wrapped = shadow.run("\n".join(defs_src) + "\n" + src + wrapper, "_bound", [a.ttype for a in qf.args], qf.returns.ttype, bits,
                                              extra={"_P": dict((k, _pv(v)) for k, v in kw.items())})
                 except shadow.Unsupported:
                     out["unsupported"] += 1
@@ -219,7 +226,8 @@ def run(tier, seed):
         chk.broken("theorems of Prop_C08.v do not check", (log + obl.get("log", ""))[-3000:])
         return chk.finish(obl)
     programs = list(PROGRAMS) + [random_param_program(rng) for _ in range(40 if tier == "quick" else 800)]
-    jobs = [dict(src=s, bindings=bindings_for(sw, rng)) for s, sw in programs]
+    programs = [(p + (None,))[:3] for p in programs]
+    jobs = [dict(src=s, bindings=bindings_for(sw, rng), defs=dfs) for s, sw, dfs in programs]
     res = progs.run_pool(task, jobs)
     known = C.known_findings(PID)
     status = collections.Counter()
